@@ -65,6 +65,15 @@ func isoVersion(res string, k int) []*isolation.Rule {
 	return []*isolation.Rule{block, pass}
 }
 
+func hotVersion(res string, k int) []*hotspot.Rule {
+	pass := &hotspot.Rule{Resource: res, MetricType: hotspot.QPS, ControlBehavior: hotspot.Reject, ParamIndex: 0, Threshold: 1000000000, DurationInSec: int64(k)}
+	block := &hotspot.Rule{Resource: res, MetricType: hotspot.QPS, ControlBehavior: hotspot.Reject, ParamIndex: 0, Threshold: 0, DurationInSec: int64(k)}
+	if k%2 == 1 {
+		return []*hotspot.Rule{pass, block}
+	}
+	return []*hotspot.Rule{block, pass}
+}
+
 func main() {
 	if len(os.Args) < 5 {
 		hx.Fatal("usage: c15 trace.ndjson seed versions traffic")
@@ -90,7 +99,10 @@ func main() {
 	// initial versions (k = 1) and the constant rules of r2, loaded before any traffic
 	_, _ = flow.LoadRules(append(flowVersion("f_r1", 1), &flow.Rule{Resource: "f_r2", TokenCalculateStrategy: flow.Direct, ControlBehavior: flow.Reject, Threshold: 0, StatIntervalInMs: 1000, MaxQueueingTimeMs: constMarker}))
 	_, _ = isolation.LoadRules(append(isoVersion("i_r1", 1), &isolation.Rule{Resource: "i_r2", MetricType: isolation.Concurrency, Threshold: constMarker}))
-	loads = append(loads, rec{"op": "load", "mod": "flow", "k": 1, "ls": 0, "le": 0}, rec{"op": "load", "mod": "iso", "k": 1, "ls": 0, "le": 0})
+	hotConst := &hotspot.Rule{Resource: "p_r2", MetricType: hotspot.QPS, ControlBehavior: hotspot.Reject, ParamIndex: 0, Threshold: 0, DurationInSec: constMarker}
+	_, _ = hotspot.LoadRules(append(hotVersion("p_r1", 1), hotConst))
+	loads = append(loads, rec{"op": "load", "mod": "flow", "k": 1, "ls": 0, "le": 0}, rec{"op": "load", "mod": "iso", "k": 1, "ls": 0, "le": 0},
+		rec{"op": "load", "mod": "hot", "k": 1, "ls": 0, "le": 0})
 
 	var stop int32
 	var wg, cw sync.WaitGroup
@@ -113,7 +125,17 @@ func main() {
 		loads = append(loads, mine...)
 		mu.Unlock()
 	}
-	cw.Add(2)
+	cw.Add(3)
+	go churn("hot", func(k int, whole bool) {
+		// (the race-only hotspot churn on h_r1 / h_r2 uses per-resource loads and getters only, so that the whole-set
+		// loads here stay the single writer of p_r1 / p_r2)
+		if whole {
+			_, _ = hotspot.LoadRules(append(hotVersion("p_r1", k), &hotspot.Rule{Resource: "p_r2", MetricType: hotspot.QPS, ControlBehavior: hotspot.Reject, ParamIndex: 0, Threshold: 0, DurationInSec: constMarker},
+				&hotspot.Rule{Resource: "h_r2", MetricType: hotspot.Concurrency, ParamIndex: 0, Threshold: 2}))
+		} else {
+			_, _ = hotspot.LoadRulesOfResource("p_r1", hotVersion("p_r1", k))
+		}
+	})
 	go churn("flow", func(k int, whole bool) {
 		if whole {
 			_, _ = flow.LoadRules(append(flowVersion("f_r1", k), &flow.Rule{Resource: "f_r2", TokenCalculateStrategy: flow.Direct, ControlBehavior: flow.Reject, Threshold: 0, StatIntervalInMs: 1000, MaxQueueingTimeMs: constMarker}))
@@ -164,7 +186,7 @@ func main() {
 			{Resource: "h_r2", MetricType: hotspot.Concurrency, ParamIndex: 0, Threshold: 2}}
 		switch rng.Intn(5) {
 		case 0:
-			_, _ = hotspot.LoadRules(rs)
+			_, _ = hotspot.LoadRulesOfResource("h_r2", rs[1:])
 		case 1:
 			_, _ = hotspot.LoadRulesOfResource("h_r1", rs[:1])
 		case 2:
@@ -220,7 +242,7 @@ func main() {
 		_ = stat.GetResourceNode("f_r1")
 	})
 	// ---- traffic --------------------------------------------------------------------------------
-	resources := []string{"f_r1", "f_r2", "i_r1", "i_r2", "c_r1", "c_r2", "h_r1", "h_r2", "o_r1", "plain"}
+	resources := []string{"f_r1", "f_r2", "i_r1", "i_r2", "p_r1", "p_r2", "c_r1", "c_r2", "h_r1", "h_r2", "o_r1", "x_plain"}
 	for t := 0; t < ntraffic; t++ {
 		wg.Add(1)
 		go func(t int) {
@@ -234,13 +256,13 @@ func main() {
 				if res[0] == 'i' {
 					opts = append(opts, api.WithBatchCount(isoBatch))
 				}
-				if res[0] == 'h' {
+				if res[0] == 'h' || res[0] == 'p' {
 					opts = append(opts, api.WithArgs(rng.Intn(3)))
 				}
 				inv := tick()
 				e, b := api.Entry(res, opts...)
 				ret := tick()
-				if res[0] == 'f' || res[0] == 'i' {
+				if res[0] == 'f' || res[0] == 'i' || res[0] == 'p' {
 					r := rec{"op": "req", "res": res, "inv": inv, "ret": ret, "pass": b == nil, "marker": -1}
 					if b != nil {
 						switch x := b.TriggeredRule().(type) {
@@ -248,6 +270,8 @@ func main() {
 							r["marker"] = int(x.MaxQueueingTimeMs)
 						case *isolation.Rule:
 							r["marker"] = int(x.Threshold)
+						case *hotspot.Rule:
+							r["marker"] = int(x.DurationInSec)
 						}
 					}
 					mine = append(mine, r)
@@ -297,6 +321,8 @@ func main() {
 		m := "flow"
 		if r["res"].(string)[0] == 'i' {
 			m = "iso"
+		} else if r["res"].(string)[0] == 'p' {
+			m = "hot"
 		}
 		inv, ret := r["inv"].(uint64), r["ret"].(uint64)
 		over := false
